@@ -7,7 +7,7 @@ set -u
 export GOFLAGS=-mod=mod GOPROXY=off GOSUMDB=off GOTOOLCHAIN=local
 d="$(readlink -f "$1")"; tier="$2"; shift 2
 W="$(mktemp -d /var/tmp/mutwt-XXXXXX)"; rmdir "$W"
-git -C /repo worktree add -q --detach "$W" HEAD || exit 2
+git -C /repo worktree add -q --detach "$W" "${BASE:-HEAD}" || exit 2
 O="$(mktemp -d /var/tmp/mutout-XXXXXX)"
 cleanup() { git -C /repo worktree remove --force "$W" >/dev/null 2>&1; rm -rf "$W" "$O"; }
 trap cleanup EXIT
@@ -24,7 +24,7 @@ if [ -f "$d/demo_test.go" ]; then
 fi
 echo "MUTANT $(basename $(dirname $d))/$(basename $d): suite=$suite demo=$demo"
 for id in "$@"; do
-  out="$(VERIF_REPO="$W" VERIF_OUT="$O" /verif/check "$id" "$tier" ${EXTRA:-} 2>&1)"; rc=$?
+  out="$(VERIF_REPO="$W" VERIF_OUT="$O" "${VERIF_CHECK:-/verif/check}" "$id" "$tier" ${EXTRA:-} 2>&1)"; rc=$?
   v="$(echo "$out" | grep -c '^VIOLATION')"
   first="$(echo "$out" | grep -m1 '^violation:' | cut -c1-150)"
   echo "  check $id $tier: exit=$rc violations=$v $first"
